@@ -31,6 +31,10 @@ pub enum Op {
     PushMany(usize),
     TryExtend(usize),
     SetMax(usize),
+    /// push_many from an exact-size, double-ended iterator that *claims* this many items and is
+    /// never materialised; only issued when the claim cannot fit, so a correct stack refuses it
+    /// from the claimed length alone (without allocating, without arithmetic overflow)
+    PushManyClaimed(usize),
 }
 
 impl Op {
@@ -44,7 +48,7 @@ impl Op {
             Op::Top2 => "top2",
             Op::Top3 => "top3",
             Op::Discard(_) => "discard",
-            Op::PushMany(_) => "push_many",
+            Op::PushMany(_) | Op::PushManyClaimed(_) => "push_many",
             Op::TryExtend(_) => "try_extend",
             Op::SetMax(_) => "set_max_stack_size",
         }
@@ -54,6 +58,7 @@ impl Op {
         match self {
             Op::Discard(n) => format!("discard({n})"),
             Op::PushMany(n) => format!("push_many({n} items)"),
+            Op::PushManyClaimed(n) => format!("push_many(exact-size iterator claiming {n} items)"),
             Op::TryExtend(n) => format!("try_extend({n} items)"),
             Op::SetMax(n) => {
                 if n == usize::MAX {
@@ -212,6 +217,7 @@ impl Model {
                     vec![(Ret::Overflow, same)]
                 }
             }
+            Op::PushManyClaimed(_) => vec![(Ret::Overflow, same)],
             Op::SetMax(_) => vec![(Ret::Unit, same)],
         }
     }
@@ -315,6 +321,10 @@ fn apply_real<T: Elem>(s: &mut Stack<T>, op: Op, vals: &[u32]) -> Ret {
                 Err(e) => conv_err(&e),
             }
         }
+        Op::PushManyClaimed(len) => match s.push_many((0..len).map(|x| T::mk(x as u32))) {
+            Ok(()) => Ret::Unit,
+            Err(e) => conv_err(&e),
+        },
         Op::TryExtend(_) => {
             let items: Vec<T> = vals.iter().map(|v| T::mk(*v)).collect();
             // a plain iterator: no exact size, not double ended
@@ -536,6 +546,27 @@ fn random_history<T: Elem>(seed: u64, idx: u64, len: usize, rep: &mut Report) {
             50..=53 => Op::Top2,
             54..=57 => Op::Top3,
             58..=65 => Op::Discard(bulk(&mut g)),
+            66..=67 if !model.v.is_empty() || model.cap < usize::MAX => {
+                // a claimed length that cannot fit: beyond the free room, up to usize::MAX
+                let n = model.v.len();
+                let free = model.cap.saturating_sub(n);
+                let mut claims = vec![usize::MAX, usize::MAX - 1, usize::MAX / 2 + 1];
+                if n > 0 {
+                    claims.push(usize::MAX - n + 1);
+                }
+                if n > 1 {
+                    claims.push(usize::MAX - n + 2);
+                }
+                if let Some(over) = free.checked_add(1) {
+                    claims.push(over);
+                    claims.push(free.saturating_add(1 << 40));
+                }
+                claims.retain(|c| n.checked_add(*c).is_none_or(|t| t > model.cap) && *c > 0);
+                match claims.is_empty() {
+                    true => Op::Top,
+                    false => Op::PushManyClaimed(*g.pick(&claims)),
+                }
+            }
             66..=77 => Op::PushMany(bulk(&mut g)),
             78..=89 => Op::TryExtend(bulk(&mut g)),
             _ => Op::SetMax(match g.below(6) {
@@ -636,7 +667,7 @@ pub fn run(args: &Args) -> i32 {
     rep.finish(
         args,
         "exploration",
-        "every history (sequence of stack operations) up to the stated length from every initial capacity 0..=4 is enumerated without repetition (distinct by construction) and counted as non-trivial when it contains at least one successful insertion; random 10^4-operation histories (every fourth: 625 operations on stacks of up to 70000 elements with bulk operations of up to 3000 items) are distinct by hash of their operation sequence",
+        "every history (sequence of stack operations) up to the stated length from every initial capacity 0..=4 is enumerated without repetition (distinct by construction) and counted as non-trivial when it contains at least one successful insertion; random 10^4-operation histories with exact-size iterators claiming up to usize::MAX items that must be refused without allocating (every fourth: 625 operations on stacks of up to 70000 elements with bulk operations of up to 3000 items) are distinct by hash of their operation sequence",
         true,
         &[
             "the Vec+capacity model is the intended semantics of the statement",
